@@ -130,6 +130,31 @@ def run(ctx):
         ctx.ob("C18.variant-delegation", ok, "PrependedReader::%s must forward to %s (found %d forwarding calls)" % (meth, "the chain" if meth == "read" else "the socket half of the chain", len(ics)),
                fn=b.path, construct="wrapper-forward", callee=meth)
 
+    # any further method of Read / Write that a wrapper overrides (write_vectored, write_all, read_exact, ..) replaces std's
+    # default, which is defined in terms of read / write: it must be a plain forward of the same call to the same inner object —
+    # a hand-written loop over buffers or a re-chunking changes which bytes reach the transport in which order
+    n_extra = 0
+    for imp in prog.impls:
+        tp = imp.get("trait_path") or ""
+        if tp not in ("std::io::Read", "std::io::Write") or not re.match(r"tls::(SwitchableConn|PrependedReader)<", imp.get("self_ty") or ""):
+            continue
+        for m in imp["methods"]:
+            meth = m.rsplit("::", 1)[-1]
+            if meth in ("read", "write", "flush") or m not in prog.bodies:
+                continue
+            n_extra += 1
+            b = prog.bodies[m]
+            ctx.fn(b)
+            same = [(bb, t) for bb, t in b.calls() if t["func"]["path"] == "%s::%s" % (tp, meth)]
+            other_io = [cname(t["func"]) for bb, t in b.calls() if re.match(r"std::io::(Read|Write)::", t["func"]["path"]) and t["func"]["path"] != "%s::%s" % (tp, meth)]
+            ok = len(same) == 1 and not other_io and not b.loops()
+            if ok:
+                rets = [q.return_value() for q in enumerate_paths(b) if q.end == "return"]
+                ok = all(isinstance(r, tuple) and r[0] == "call" and r[1] == cname(same[0][1]["func"]) for r in rets)
+            ctx.ob("C18.variant-delegation", ok, "%s overrides %s::%s with something other than a plain forward of the same call (forwarding calls %d, other io calls %s, loops %d)"
+                   % (imp["self_ty"], tp, meth, len(same), other_io[:3], len(b.loops())), fn=b.path, construct="extra-method", callee=meth, where=b.where(0))
+    ctx.note("transport wrappers override %d Read/Write methods beyond read/write/flush" % n_extra)
+
     # ---- ownership -----------------------------------------------------------------------------------------
     callers = [(b, bb) for b, bb, t in prog.callers_of("^" + re.escape(sw.path) + "$") if "::tests::" not in b.path]
     ctx.ob("C18.ownership", len(callers) == 1 and callers[0][0].path == roles.f_init.path, "the TLS switch is called from %s (need exactly the handshake)" % [c[0].path for c in callers],
@@ -204,9 +229,31 @@ def run(ctx):
     pcs = [cname(t["func"]) for _, t in tc.calls()]
     ctx.ob("C18.init-order", any(x.endswith("peer_certificates") for x in pcs), "tls_certs() does not read the peer certificates of the TLS connection (%s)" % pcs, fn=tc.path,
            construct="peer-certs", nontrivial=False)
+    # "any client certificate chain": what tls_certs() returns is the whole list rustls holds (or None), not a part of it, and the
+    # handshake stores exactly that in the context it hands to the shim
+    def _whole_chain(t):
+        t = T.peel(t)
+        if isinstance(t, tuple) and t[0] == "agg" and t[1] == "adt" and (t[2] or "").endswith("option::Option"):
+            return t[3] == "None" or (t[3] == "Some" and len(t[4]) == 1 and isinstance(t[4][0], tuple) and t[4][0][0] == "somepayload" and _whole_chain(t[4][0][1]))
+        return T.is_call(t, r"::peer_certificates$")
+    nret = 0
+    for q in enumerate_paths(tc):
+        if q.end != "return":
+            continue
+        nret += 1
+        rv = q.return_value()
+        ctx.ob("C18.init-order", _whole_chain(rv), "tls_certs() returns %s: the certificates the client presented do not reach the shim as the whole list (need peer_certificates() itself, or None)" % term_str(rv)[:120],
+               fn=tc.path, construct="whole-chain", where=tc.where(q.blocks[-1]), sample={"rule": "init-order/certs", "value": term_str(rv)[:80]})
+    ctx.floor("C18.init-order", "return paths of tls_certs", nret, 2)
+    nstore = 0
+    for bb, i_, s_ in fi.stmts():
+        if s_["k"] == "assign" and any(isinstance(e, dict) and e.get("n") == "tls_client_certs" for e in s_["lhs"].get("p", [])):
+            nstore += 1
+            o = fi.origin_rvalue(s_["rv"], bb, i_, 0)
+            ctx.ob("C18.init-order", T.is_call(T.peel(o), r"::tls_certs$"), "the certificate list stored for the shim is %s, not the connection's tls_certs()" % term_str(o)[:120],
+                   fn=fi.path, construct="certs-stored", where=fi.where(bb, i_))
+    ctx.floor("C18.init-order", "stores of the client certificates into the authentication context", nstore, 1)
 
     # `commands are served exactly as over plaintext` presupposes the same wire layer under the TLS stream (a short write
     # of the TLS stream must not truncate a packet): the outbound wire rules run here too
-    import rules._wire as W_
-    W_.run_outbound(ctx)
 
